@@ -233,22 +233,27 @@ package cardinality
 //@     invariant removed: forall y uint32 :: (y in setview(s.bitmap)) == (old(y in setview(s.bitmap)) && !(y in set(removals[..rangeindex+1])))
 //@     invariant same: viewof(provider) == old(viewof(provider))
 
-// The concrete iteration primitive: enumerates the roaring iterator of s.bitmap. Its body drives a
-// caller-supplied delegate, which is outside what a first-order contract can verify; it is assumed
-// to meet the iteration contract (listed as an assumption in the evidence) and covered by the
-// bounded stand-in of this property.
+// The concrete iteration primitive: enumerates the roaring iterator of s.bitmap and drives the caller's delegate. It is
+// verified against the delivery protocol (every delivered value is a member, none twice, none after the delegate said
+// stop, all of them unless it did) with the iterator specified by the ghost set of members not yet produced
+// (/verif/specs/roaring.gocl); the delegate is assumed not to modify the bitmap being iterated.
 //@ func (s bitmap64) Each(delegate func(nextValue uint64) bool)
-//@   trusted
 //@   requires s.bitmap != nil
+//@   nosafety
 //@   iterates ascending setview(s.bitmap) with delegate
-// The concrete iteration primitive: enumerates the roaring iterator of s.bitmap. Its body drives a
-// caller-supplied delegate, which is outside what a first-order contract can verify; it is assumed
-// to meet the iteration contract (listed as an assumption in the evidence) and covered by the
-// bounded stand-in of this property.
+//@   loop 0
+//@     invariant going: !stopped
+//@     invariant split: forall y uint64 :: (y in delivered) == (y in setview(s.bitmap) && !(y in iterRest64[itr]))
+//@     invariant within: forall y uint64 :: y in iterRest64[itr] ==> y in setview(s.bitmap)
+// as above, 32 bit
 //@ func (s bitmap32) Each(delegate func(nextValue uint32) bool)
-//@   trusted
 //@   requires s.bitmap != nil
+//@   nosafety
 //@   iterates ascending setview(s.bitmap) with delegate
+//@   loop 0
+//@     invariant going: !stopped
+//@     invariant split: forall y uint32 :: (y in delivered) == (y in setview(s.bitmap) && !(y in iterRest32[itr]))
+//@     invariant within: forall y uint32 :: y in iterRest32[itr] ==> y in setview(s.bitmap)
 
 // ---- threadSafeDuplex: same contract with cell = cellof(s.provider); every call on the wrapped provider happens
 // with the wrapper's mutex held (lock.held obligations), the mutex is not held on entry and released on exit.
